@@ -11,8 +11,8 @@ driven in-process (harness/h1_c17_driver.c) with a scripted clock and scripted v
 three threads), against the Lean model `C17`; monitors evaluate the property itself on the
 implementation's record stream; an ASan build of the same harness looks for memory errors.
 
-Four behaviours of the anchored code have a repaired and an as-coded variant in the model
-(`fixarg`, `fixvar`, `fixidx`; S6 is a pure memory-safety defect seen by the ASan run).  The
+Five behaviours of the anchored code have a repaired and an as-coded variant in the model
+(`fixarg`, `fixvar`, `fixidx`, `fixpair`; S6 is a pure memory-safety defect seen by the ASan run).  The
 check finds out which variant the implementation follows and reports every as-coded variant
 that violates the property (KNOWN-FINDING if listed open in known_findings.json)."""
 import glob
@@ -39,8 +39,8 @@ U64 = 1 << 64
 ARG_MAX = 988       # `max_size` of save_to_argbuf(); replaced by the translated value at run time
 ARG_SIZES = [8, 16, 100, 500, 872, 876, 880, 904, 908, 912, 944, 948, 952, 956, 960, 976, 980, 984, 988, 992,
              1000, 1016, 1020, 1024, 1100]
-FLAGS = ("fixarg", "fixvar", "fixidx")
-FINDING_OF = {"fixarg": "F17c", "fixvar": "F17b", "fixidx": "F17d"}
+FLAGS = ("fixarg", "fixvar", "fixidx", "fixpair")
+FINDING_OF = {"fixarg": "F17c", "fixvar": "F17b", "fixidx": "F17d", "fixpair": "F17e"}
 WHAT = {
     "F17c": "save_trigger_read() (libmcount/record.c) takes the argument size from `*(uint32_t *)ptr` with "
             "ptr = argbuf + event_idx instead of the start of the frame's slice: with -A/-R on a read= function "
@@ -50,6 +50,11 @@ WHAT = {
             "change back to the value the thread started with, and then to the last reported value, is not reported",
     "F17d": "save_watchpoint() tags events with the rstack index but mcount_exit_filter_record() keeps events with "
             "idx < mtdp->idx: watch events of a call dropped by the time filter are not dropped with it",
+    "F17e": "save_trigger_read() (libmcount/record.c) tests the room left above the argument data event by event: with an "
+            "argument payload of 957..988 bytes (read=page-fault; 941..980 for proc/statm) the read event of the entry "
+            "hook is stored and the diff event of the exit hook is silently dropped, and an exit hook that finds no read "
+            "event of its source stores a second READ event (stamped with the exit time) instead of a diff: a read "
+            "without its diff / a diff-less read before EXIT",
     "S6": "mcount_watch_init() (libmcount/mcount.c) allocates the global watch item without room for data[] "
           "(and leaves `inited` uninitialised); mcount_watch_update() compares/copies `size` bytes into it: "
           "heap-buffer-overflow for an 8-byte variable",
@@ -128,9 +133,9 @@ def arg_size(t):
 
 def to_model(cfg, flags):
     wv = [w for w in cfg["watch"] if w != "cpu"]
-    line = "CFG maxstack=%d depth=1024 threshold=%d watchcpu=%d pagekb=%d fixarg=%d fixvar=%d fixidx=%d" % (
+    line = "CFG maxstack=%d depth=1024 threshold=%d watchcpu=%d pagekb=%d fixarg=%d fixvar=%d fixidx=%d fixpair=%d" % (
         cfg["max_stack"] if cfg["max_stack"] is not None else 1024, cfg["threshold"] or 0,
-        1 if "cpu" in cfg["watch"] else 0, PAGEKB, flags[0], flags[1], flags[2])
+        1 if "cpu" in cfg["watch"] else 0, PAGEKB, flags[0], flags[1], flags[2], flags[3])
     if wv:
         line += " vars=" + ",".join(str(k) for k in wv)
     out = [line]
@@ -327,37 +332,35 @@ def ev_tok(eid, t, data):
 
 
 def read_plan(cfg, call):
-    """the read / diff events the property asks for around a recorded call (repaired rule for the
-    room in the slice: an event is stored iff it does not reach down into 4 + argument size)."""
+    """The read / diff events the property asks for around a recorded call: per source one read event
+    after ENTRY and one diff event before EXIT, or neither.  Neither: when the frame's slice has no
+    room for the read and the diff events of all selected sources above the argument data (4 + argument
+    size); a source whose reading fails at entry has neither, one whose reading fails only at exit has
+    its read event alone (nothing to subtract)."""
     t = cfg["trig"].get(call["fn"])
     if not t or not t["read"]:
         return [], []
     a = arg_size(t)
     floor = 4 + a if (a is not None and a <= ARG_MAX and call["kind"] == "pg") else 0
-    idx = 1024
+    need = sum(16 + 8 * READ_IDS[bit][2] for bit in (1, 2) if t["read"] & bit)
+    if 1024 - 2 * need < floor:
+        return [], []
     reads, diffs = [], []
     have = {}
     for bit in (1, 2):
         if t["read"] & bit:
-            size = 16 + 8 * READ_IDS[bit][2]
             v = reading(call["hE"], bit)
-            if idx - size < floor or v is None:
+            if v is None:
                 continue
-            idx -= size
             have[bit] = v
             reads.append(ev_tok(READ_IDS[bit][0], call["t0"], v))
     if call["hX"] is not None:
         for bit in (1, 2):
-            if t["read"] & bit:
-                size = 16 + 8 * READ_IDS[bit][2]
+            if t["read"] & bit and bit in have:
                 v = reading(call["hX"], bit)
-                if idx - size < floor or v is None:
+                if v is None:
                     continue
-                idx -= size
-                if bit in have:
-                    diffs.append(ev_tok(READ_IDS[bit][1], call["t1"], [(x - y) % U64 for x, y in zip(v, have[bit])]))
-                else:
-                    diffs.append(ev_tok(READ_IDS[bit][0], call["t1"], v))
+                diffs.append(ev_tok(READ_IDS[bit][1], call["t1"], [(x - y) % U64 for x, y in zip(v, have[bit])]))
     return reads, diffs
 
 
@@ -641,7 +644,7 @@ def asan_report(stderr):
 
 
 # ---- running ------------------------------------------------------------------------------------
-COMBOS = list(itertools.product((1, 0), repeat=3))    # (fixarg, fixvar, fixidx); all-repaired first
+COMBOS = list(itertools.product((1, 0), repeat=4))    # (fixarg, fixvar, fixidx, fixpair); all-repaired first
 
 
 def run_model_retry(mlines):
@@ -894,7 +897,8 @@ def run(ctx):
             "impl_stream": stream_of(c["impl"], c["script"]),
             "theorem": {"F17c": "c17_read_diff_placement / c17_prefix_diff_lost_witness",
                         "F17b": "c17_watch_iff_change / c17_prefix_var_change_lost_witness",
-                        "F17d": "c17_dropped_with_call / c17_prefix_watch_survives_witness"}.get(fid)})
+                        "F17d": "c17_dropped_with_call / c17_prefix_watch_survives_witness",
+                        "F17e": "c17_read_diff_paired / c17_prefix_unpaired_read_witness"}.get(fid)})
 
     # monitors on every case
     spec_checked = spec_fail = 0
@@ -922,7 +926,7 @@ def run(ctx):
             mon_by[which] = mon_by.get(which, 0) + 1
 
     best = consistent[0] if consistent else max(COMBOS, key=lambda cb: sum(cb in c["match"] for c in usable))
-    all_fixed = (1, 1, 1)
+    all_fixed = (1, 1, 1, 1)
     for c in cases:
         follows_best = best in c["match"] or bool(c["unknown_probe"])
         if not follows_best:
@@ -1089,7 +1093,7 @@ def run(ctx):
                 "-A struct-by-value stack argument of 8..1100 bytes, -R, -t, -W cpu / var:wv8|wv4|wv1 in any order) x random call "
                 "histories over 9 symbols with scripted clock (gaps 0..30 ns), page-fault/statm/cpu/variable values "
                 "changing between hooks, asynchronous events, 1-3 threads, -pg / cygprof / mixed hooks; every case is "
-                "run on the real libmcount and on the model in all 8 repaired/as-coded variants; distinct = distinct "
+                "run on the real libmcount and on the model in all 16 repaired/as-coded variants; distinct = distinct "
                 "(configuration, script)",
         "input_distribution": dist, "event_records_in_impl_streams": nev,
         "model_variant_followed": dict(zip(FLAGS, best)), "consistent_variants": [list(x) for x in consistent],
@@ -1140,4 +1144,4 @@ def replay(ctx, path):
     if exp is not None:
         differs = exp != stream_of(c["impl"], c["script"]).get(0, [])
         print("specified stream:", exp, "DIFFERENT" if differs else "MATCH")
-    return 1 if (bad or differs or (1, 1, 1) not in c["match"]) else 0
+    return 1 if (bad or differs or (1, 1, 1, 1) not in c["match"]) else 0
